@@ -178,7 +178,7 @@ def judge_c04(d):
 
 
 PROPS["C04"] = {
-    "lean_modules": ["P2.Props.C04"],
+    "lean_modules": ["P2.Props.C04", "P2.Props.C04b"],
     "audit_module": "P2.Audit.C04",
     "harness_prop": "c04",
     "profile": "release",
@@ -192,6 +192,60 @@ PROPS["C04"] = {
     "level_note": "Trusted: Lean kernel, standard axioms, hand transcription tied by exact agreement of all challenges on honest and altered transcripts. Random-oracle reading is an idealisation; STARK schedule partial.",
     "assumptions": ["Poseidon as a random oracle for the reading 'changes all challenges'"],
     "rule": "proofs of generated circuit programs under generated configs x 9+ altered transcript components each; all challenges compared; distinct = distinct request lines",
+}
+
+def judge_c16(d):
+    rq = d["request"]
+    if rq.startswith("c16 compress"):
+        return "FriProof::compress output differs from the compression model (transposition, inferable element removal, path compression or first-wins maps)"
+    if rq.startswith("c16 paths"):
+        return None
+    return None
+
+
+PROPS["C16"] = {
+    "lean_modules": ["P2.Props.C16a"],
+    "audit_module": "P2.Audit.C16",
+    "harness_prop": "c16",
+    "profile": "release",
+    "judge": judge_c16,
+    "trusted_base": KERNEL_TB + [
+        "modelled, not verified: hash/path_compression.rs and FriProof::compress transcribed by hand (P2/Model/PathCompression.lean, Compress.lean); FriProof decompression and verify_compressed are exercised on the implementation only (round trip + verdict equivalence oracle), their Lean model is partial",
+    ],
+    "level_text": "Lean 4 theorem: Merkle multi-proof compression followed by decompression returns the original proofs for EVERY tree, cap height and index multiset (repeats and shared cosets included), against the actual prove function of the Merkle model; FriProof::compress tied to its Lean model by exact equality of the compressed proof on real proofs with colliding query indices; decompress/verify_compressed checked by the property's own oracle on the implementation (lossless, verdict-equivalent, also on tampered proofs)",
+    "level_note": "Trusted: Lean kernel, standard axioms, hand transcription tied by correspondence; generators force repeated indices and shared cosets (tiny LDE domains, 28-40 queries, arities 1-4, cap heights 0-4, zk on/off).",
+    "assumptions": [],
+    "rule": "accepted proofs of generated programs under collision-forcing configs; per proof: compress/decompress/verify_compressed oracle, model-vs-real compressed FRI proof, 3 path-roundtrip requests on real Merkle paths with chosen index multisets, 2 tampered variants; distinct = distinct request lines",
+}
+
+def judge_c07(d):
+    a, b = d["impl"], d["model"]
+    rq = d["request"]
+    if "MISMATCH" in a:
+        return "the gate's evaluators (base / packed batch / extension / in-circuit) disagree on identical inputs: " + a[:200]
+    if rq.startswith("c07 eval"):
+        return "constraint values of the implementation differ from the gate model on this row"
+    if rq.startswith("c07 meta"):
+        return "declared num_constraints/degree/num_wires/num_constants differ from the gate model"
+    if rq.startswith("c07 gen"):
+        return "the row filled in by the gate's generators differs from the generator model"
+    return None
+
+
+PROPS["C07"] = {
+    "lean_modules": ["P2.Props.C07"],
+    "audit_module": "P2.Audit.C07",
+    "harness_prop": "c07",
+    "profile": "release",
+    "judge": judge_c07,
+    "trusted_base": KERNEL_TB + [
+        "modelled, not verified: eval_unfiltered and the generators of all 16 gates of plonky2/src/gates transcribed by hand (P2/Model/Gates.lean), generic over the field so that the same model answers base-field and extension-field evaluation",
+        "packed evaluators only at the build's default packing width (partial)",
+    ],
+    "level_text": "Lean 4 model of every built-in gate (constraints, declared counts/degrees, generators) with theorems for all parameter values; tied to the four Rust evaluators (base batch 1/2/33, extension, in-circuit) and to the gates' own generators by exact equality on random, boundary and generator-filled rows for a sweep of all parameters; the property's own oracles run on the implementation: generated rows satisfy all constraints, every generator-written wire replaced by v+1/0/random is detected, constraint counts and low degree as declared",
+    "level_note": "Trusted: Lean kernel, standard axioms, hand transcription tied by correspondence. Gadget contracts respected when generating rows (boolean power bits, index < 2^bits, sum < B^limbs, shift != 0). Lookup gates have no constraints of their own (decided under C08).",
+    "assumptions": [],
+    "rule": "all 16 gate types x parameter sweep x (random, boundary, generated, perturbed) rows x evaluators; distinct = distinct request lines",
 }
 
 NOT_CLAIMED = {}
